@@ -1,15 +1,16 @@
 #!/bin/bash
 # re-evaluate every seeded change against the current checks (sequential: /repo is modified while one runs)
 cd /verif
+R=${MUT_REPO:-/repo}
 for d in seeded/C*-m*; do
   id=$(basename $d); p=${id%-m*}; k=${id#*-m}
   if [ -f $d/NOTE ]; then
     echo "$id: $(cat $d/NOTE)"
-  elif git -C /repo apply --check /verif/$d/patch.diff 2>/dev/null; then
+  elif git -C $R apply --check /verif/$d/patch.diff 2>/dev/null; then
     extra=""; [ -f $d/extra_checks ] && extra=$(cat $d/extra_checks)
     tools/eval_mutant.py $p $k $extra 2>&1 | cut -c1-220
   else
     echo "$id: patch no longer applies to /repo HEAD (was written against 58dbbc0); earlier result kept"
   fi
 done
-git -C /repo status --short
+git -C $R status --short
